@@ -20,10 +20,11 @@ type hostCfg struct {
 	EncVsn   int    `json:"enc_version"` // -1 none, 0, 1
 	Verify   bool   `json:"verify_incoming"`
 	Compress bool   `json:"compress"`
+	Skip     bool   `json:"skip_inbound_label_check"` // an outer layer strips the header: traffic arrives without one
 }
 
 func (c hostCfg) String() string {
-	return fmt.Sprintf("label=%q enc=%d verify=%v comp=%v", c.Label, c.EncVsn, c.Verify, c.Compress)
+	return fmt.Sprintf("label=%q enc=%d verify=%v comp=%v skip=%v", c.Label, c.EncVsn, c.Verify, c.Compress, c.Skip)
 }
 
 type victim struct {
@@ -49,6 +50,7 @@ func newVictim(seed int64, cfg hostCfg, mut func(cf *memberlist.Config)) (*victi
 		cf.PushPullInterval = 0
 		cf.GossipInterval = 0
 		cf.GossipVerifyIncoming = cfg.Verify
+		cf.SkipInboundLabelCheck = cfg.Skip
 		cf.TCPTimeout = 2 * time.Second
 		if cfg.EncVsn >= 0 {
 			_ = cf.Keyring.AddKey(v.k2)
@@ -61,6 +63,7 @@ func newVictim(seed int64, cfg hostCfg, mut func(cf *memberlist.Config)) (*victi
 		return nil, err
 	}
 	v.rig = rig
+	rig.NoHeader = cfg.Skip
 	if cfg.EncVsn >= 0 {
 		rig.Keys = [][]byte{v.k1, v.k2}
 	}
